@@ -5,13 +5,21 @@ Case description (JSON, enough for `rerun`):
   item = ["g", name, [[num,den]...], [qubits]] | ["measure", q, c] | ["reset", q] | ["barrier", [qubits]] | ["qpdm", q]
        | ["qpd2", basis index, bid|null, label|null, [a, b]] | ["qpd1", basis index, half, bid|null, label|null, [q]]
   basis key = ["inst", gate name, [[num,den]...]] | ["hand2", k] | ["hand1", k];  every entry of `bases` is its own object
+  optional: desc["layout"] = {q: [sizes], c: [sizes], loose: k, loose_first: bool}  (several registers, loose clbits)
+            desc["shared"] = {"j": i}  item j is appended with the SAME gate object as item i (known finding F17)
+
+Known finding F17 (KNOWN_FINDINGS.json, read-only lookup): one gate instance at several positions + inplace=True.  While the
+entry is listed with status "known", such cases go to the quiet group "<stream>__known_F17" whose checker compares with the
+model of the CURRENT aliasing behaviour; when the entry is absent they are compared with the property-demanding model and alarm.
 """
 from __future__ import annotations
 
+import json
+import os
 from fractions import Fraction
 
 import numpy as np
-from qiskit.circuit import QuantumCircuit, QuantumRegister, ClassicalRegister, CircuitInstruction, Reset
+from qiskit.circuit import QuantumCircuit, QuantumRegister, ClassicalRegister, CircuitInstruction, Reset, Clbit
 from qiskit.circuit.library import (CXGate, CZGate, RZZGate, SwapGate, HGate, XGate, ZGate, SGate, SdgGate, SXGate, RZGate,
                                     RXGate)
 
@@ -20,9 +28,10 @@ from qiskit_addon_cutting.qpd import QPDBasis, TwoQubitQPDGate, SingleQubitQPDGa
 from qiskit_addon_cutting.qpd.instructions import QPDMeasure
 from qiskit_addon_cutting.qpd.decompose import decompose_qpd_instructions
 
-from common import CaseWriter, Res, Raw, Zc, call_canon, coq
+from common import CaseWriter, Res, Raw, Zc, Opt, call_canon, coq
 from circ import CircCtx, coq_circ, coq_benv
 
+ROOT = os.path.dirname(os.path.dirname(os.path.abspath(__file__)))
 IMPORTS = "From CKT Require Import Common.Base Common.Circ Model.Decompose Corr.C14Corr."
 
 
@@ -83,17 +92,62 @@ BASIS1_KEYS = [["hand1", 0], ["hand1", 1]]
 LABELS = [None, None, "cut_cx_0", "cut_rzz_12", "foo", "cut_a_b"]
 
 
+def f17_known():
+    try:
+        # C14_KNOWN_FINDINGS: test hook naming another findings file (to check that an unlisted class alarms)
+        kf = json.load(open(os.environ.get("C14_KNOWN_FINDINGS") or os.path.join(ROOT, "KNOWN_FINDINGS.json")))
+    except Exception:  # noqa: BLE001
+        return False
+    return any(e.get("property") == "C14" and e.get("id") == "F17" and e.get("status") == "known" for e in kf.get("findings", []))
+
+
+def alias_classes(desc):
+    """lists of data indices holding one gate object."""
+    root = {}
+    for j, i in desc.get("shared", {}).items():
+        root.setdefault(int(i), [int(i)]).append(int(j))
+    return [sorted(v) for v in root.values()]
+
+
+def alias_closed_ids(desc, ids):
+    cls = alias_classes(desc)
+    out = []
+    for g in ids:
+        extra = []
+        for c in cls:
+            if any(p in c for p in g):
+                extra += [q for q in c if q not in g and q not in extra]
+        out.append(list(g) + extra)
+    return out
+
+
 def build(desc):
     """desc -> (QuantumCircuit, list of basis objects)."""
     bases = [make_basis(k) for k in desc["bases"]]
     qc = QuantumCircuit()
-    if desc["nq"]:
-        qc.add_register(QuantumRegister(desc["nq"], "q"))
-    if desc["nc"]:
-        qc.add_register(ClassicalRegister(desc["nc"], "c"))
-    for it in desc["items"]:
+    lay = desc.get("layout")
+    if lay:
+        for n, sz in enumerate(lay["q"]):
+            qc.add_register(QuantumRegister(sz, f"q{n}"))
+        if lay.get("loose") and lay.get("loose_first"):
+            qc.add_bits([Clbit() for _ in range(lay["loose"])])
+        for n, sz in enumerate(lay["c"]):
+            qc.add_register(ClassicalRegister(sz, f"c{n}"))
+        if lay.get("loose") and not lay.get("loose_first"):
+            qc.add_bits([Clbit() for _ in range(lay["loose"])])
+        assert qc.num_qubits == desc["nq"] and qc.num_clbits == desc["nc"]
+    else:
+        if desc["nq"]:
+            qc.add_register(QuantumRegister(desc["nq"], "q"))
+        if desc["nc"]:
+            qc.add_register(ClassicalRegister(desc["nc"], "c"))
+    shared = {int(j): int(i) for j, i in desc.get("shared", {}).items()}
+    gates = {}
+    for idx, it in enumerate(desc["items"]):
         k = it[0]
-        if k == "g":
+        if idx in shared:
+            qc.append(gates[shared[idx]], it[4] if k == "qpd2" else it[5])
+        elif k == "g":
             cls = G1.get(it[1]) or G2[it[1]]
             qc.append(cls(*[unfr(p) for p in it[2]]), it[3])
         elif k == "measure":
@@ -105,9 +159,11 @@ def build(desc):
         elif k == "qpdm":
             qc.append(QPDMeasure(), [it[1]])
         elif k == "qpd2":
-            qc.append(TwoQubitQPDGate(bases[it[1]], basis_id=it[2], label=it[3]), it[4])
+            gates[idx] = TwoQubitQPDGate(bases[it[1]], basis_id=it[2], label=it[3])
+            qc.append(gates[idx], it[4])
         elif k == "qpd1":
-            qc.append(SingleQubitQPDGate(bases[it[1]], it[2], basis_id=it[3], label=it[4]), it[5])
+            gates[idx] = SingleQubitQPDGate(bases[it[1]], it[2], basis_id=it[3], label=it[4])
+            qc.append(gates[idx], it[5])
         else:
             raise ValueError(it)
     for i in desc.get("predef", []):
@@ -119,49 +175,72 @@ def regs_snapshot(qc):
     return (qc.num_qubits, qc.num_clbits, [(r.name, r.size) for r in qc.qregs], [(r.name, r.size) for r in qc.cregs])
 
 
-def execute(desc, ids, map_ids, inplace):
+def _form(x, form):
+    if form == "tuple" and x is not None:
+        return tuple(tuple(y) if isinstance(y, list) else y for y in x)
+    return x
+
+
+def execute(desc, ids, map_ids, inplace, form="list"):
     """Run the implementation; return (canon, impl, contracts)."""
     qc, _ = build(desc)
     ctx = CircCtx()
     cin = ctx.canon_circuit(qc)
     snap = regs_snapshot(qc)
     nc = qc.num_clbits
+    a_ids, a_maps = _form(ids, form), _form(map_ids, form)
     if map_ids is None:
-        r = call_canon(decompose_qpd_instructions, qc, ids, inplace=inplace)
+        r = call_canon(decompose_qpd_instructions, qc, a_ids, inplace=inplace)
     else:
-        r = call_canon(decompose_qpd_instructions, qc, ids, map_ids, inplace=inplace)
+        r = call_canon(decompose_qpd_instructions, qc, a_ids, a_maps, inplace=inplace)
     contracts = {}
-    impl = dict(status=r[0], detail=None if r[0] == "ok" else r[1], out=None, regsize=None, untouched=True)
+    impl = dict(status=r[0], detail=None if r[0] == "ok" else r[1], out=None, regsize=None, untouched=True, reg_ok=True)
     if r[0] == "ok":
         out = r[1]
         impl["out"] = ctx.canon_circuit(out)
         reg = out.cregs[-1]
         impl["regsize"] = reg.size
-        contracts["new_register_is_last_and_named"] = (reg.name == "qpd_measurements")
-        contracts["new_register_bits_are_the_final_clbits"] = (
-            out.num_clbits == nc + reg.size and [out.find_bit(b).index for b in reg] == list(range(nc, nc + reg.size)))
-        contracts["same_qubits"] = (out.num_qubits == qc.num_qubits if not inplace else True)
+        contracts["new_register_is_named_qpd_measurements"] = (reg.name == "qpd_measurements")
+        impl["reg_ok"] = bool(len(out.cregs) == len(snap[3]) + 1 and out.num_clbits == nc + reg.size
+                              and [out.find_bit(b).index for b in reg] == list(range(nc, nc + reg.size)))
+        contracts["new_register_is_last_and_its_bits_are_the_final_clbits"] = impl["reg_ok"]
+        contracts["same_qubits"] = (out.num_qubits == snap[0])
         if inplace:
             contracts["inplace_returns_the_input_object"] = (out is qc)
         else:
             contracts["copy_is_a_distinct_object"] = (out is not qc)
-    if not inplace:
+    # state of the ARGUMENT after the call
+    if not (inplace and r[0] == "ok"):
         after = ctx.canon_circuit(qc)
-        impl["untouched"] = (after == cin and regs_snapshot(qc) == snap)
-        impl["input_after"] = after
-        contracts["inplace_false_leaves_input_untouched"] = impl["untouched"]
+        unchanged = (after == cin and regs_snapshot(qc) == snap)
+        impl["arg_unchanged"] = unchanged
+        impl["input_after"] = None if unchanged else after
+        if not inplace:
+            impl["untouched"] = unchanged
+            contracts["inplace_false_leaves_input_untouched"] = unchanged
+        elif r[0] == "refused":
+            contracts["refused_call_leaves_argument_unchanged"] = unchanged
+    impl["side_ok"] = bool((impl["untouched"] if not inplace else (impl.get("arg_unchanged", True) if r[0] == "refused" else True))
+                           and impl["reg_ok"])
     canon = dict(input=cin, nc=nc, benv=ctx.canon_benv())
     return canon, impl, contracts
 
 
-def coq_case(canon, ids, map_ids, impl):
+def coq_maps(map_ids):
+    if map_ids is None:
+        return Raw("None")
+    return Raw("(Some " + coq([Opt(None) if m is None else Opt(Zc(m)) for m in map_ids]) + ")")
+
+
+def coq_case(canon, ids, map_ids, impl, aids=None):
     if impl["status"] == "ok":
         exp = Res("ok", (coq_circ(impl["out"]), impl["regsize"]))
     else:
         exp = Res(impl["status"])
-    maps = Raw("None") if map_ids is None else Raw(f"(Some {coq([Zc(m) for m in map_ids])})")
-    return (coq_benv(canon["benv"]), coq_circ(canon["input"]), canon["nc"], [list(g) for g in ids], maps, exp,
-            bool(impl["untouched"]))
+    head = (coq_benv(canon["benv"]), coq_circ(canon["input"]), canon["nc"], [list(g) for g in ids])
+    if aids is not None:
+        head = head + ([list(g) for g in aids],)
+    return head + (coq_maps(map_ids), exp, bool(impl["side_ok"]))
 
 
 # --------------------------------------------------------------------------------------
@@ -264,6 +343,14 @@ def gen_valid(rng, preset_mode=None, n_units=None):
     gorder = rng.permutation(len(groups)) if groups else []
     groups = [groups[int(i)] for i in gorder]
     desc = dict(nq=nq, nc=nc, bases=bases, items=items, predef=[])
+    if rng.integers(0, 3) == 0:   # several registers / loose clbits (bit indices stay 0..n-1 in declaration order)
+        def split(n):
+            if n <= 1 or rng.integers(0, 2):
+                return [n] if n else []
+            k = int(rng.integers(1, n))
+            return [k, n - k]
+        loose = int(rng.integers(0, nc + 1)) if nc else 0
+        desc["layout"] = dict(q=split(nq), c=split(nc - loose), loose=loose, loose_first=bool(rng.integers(0, 2)))
     return desc, [g for g, _ in groups], [n for _, n in groups], preset_mode
 
 
@@ -275,14 +362,22 @@ def ph_bid(it):
     return it[2] if it[0] == "qpd2" else it[3]
 
 
-def emit(w, group, desc, ids, map_ids, inplace, tags):
-    canon, impl, contracts = execute(desc, ids, map_ids, inplace)
+def emit(w, group, desc, ids, map_ids, inplace, tags, form="list"):
+    canon, impl, contracts = execute(desc, ids, map_ids, inplace, form)
     for k, v in contracts.items():
         w.contract(k, v)
-    case = dict(kind="decompose", stream=group, desc=desc, ids=ids, map_ids=map_ids, inplace=inplace, canon=canon, impl=impl)
+    case = dict(kind="decompose", stream=group, desc=desc, ids=ids, map_ids=map_ids, inplace=inplace, form=form, canon=canon, impl=impl)
     nph = sum(1 for it in desc["items"] if is_ph(it))
-    w.add(group, "chk_decompose", coq_case(canon, ids, map_ids, impl), case,
-          nontrivial=(impl["status"] == "ok" and nph > 0) or (group != "valid" and impl["status"] != "ok"))
+    nontrivial = (impl["status"] == "ok" and nph > 0) or (group != "valid" and impl["status"] != "ok")
+    if desc.get("shared") and inplace and f17_known():
+        # known finding F17: quiet group, compared with the model of the CURRENT aliasing behaviour
+        case["known_class"] = "F17"
+        aids = alias_closed_ids(desc, ids)
+        case["aids"] = aids
+        w.add(group + "__known_F17", "chk_decompose_f17", coq_case(canon, ids, map_ids, impl, aids), case, nontrivial=nontrivial)
+        w.count(group + ".routed", "known_F17")
+    else:
+        w.add(group, "chk_decompose", coq_case(canon, ids, map_ids, impl), case, nontrivial=nontrivial)
     w.count(group + ".outcome", impl["status"])
     for k, v in tags.items():
         w.count(group + "." + k, v)
@@ -314,6 +409,9 @@ def execute_preset(desc, ids, target, path, value):
         if path == "ctor":
             qc.data[target] = inst.replace(operation=r[1])
         impl["stored_basis_id"] = qc.data[target].operation.basis_id
+        nmaps_t = len(bases[it[1]].maps)
+        if isinstance(value, int) and 0 <= value < nmaps_t:
+            impl["circ_after_attempt"] = ctx.canon_circuit(qc)
         r2 = call_canon(decompose_qpd_instructions, qc, ids)
         after = dict(status=r2[0], detail=None if r2[0] == "ok" else r2[1], out=None, regsize=None, untouched=True)
         if r2[0] == "ok":
@@ -326,18 +424,25 @@ def execute_preset(desc, ids, target, path, value):
     return canon, impl
 
 
-def coq_preset_case(canon, value, impl):
+def coq_preset_case(canon, value, impl, ids):
     exp = Res("ok", Raw("tt")) if impl["status"] == "ok" else Res(impl["status"])
-    return (coq_benv(canon["benv"]), canon["handle"], Zc(value), exp)
+    after = Raw("None")
+    if impl.get("circ_after_attempt") is not None and impl.get("after"):
+        a = impl["after"]
+        e2 = Res("ok", (coq_circ(a["out"]), a["regsize"])) if a["status"] == "ok" else Res(a["status"])
+        after = Raw("(Some " + coq((coq_circ(impl["circ_after_attempt"]), canon["nc"], [list(g) for g in ids], e2)) + ")")
+    return (coq_benv(canon["benv"]), canon["handle"], Zc(value), exp, after)
 
 
 def generate(rng, tier, outdir):
-    w = CaseWriter(outdir, IMPORTS, case_types={"chk_decompose": "c14_case", "chk_preset": "c14_preset_case"})
+    w = CaseWriter(outdir, IMPORTS, case_types={"chk_decompose": "c14_case", "chk_decompose_f17": "c14_f17_case",
+                                                   "chk_preset": "c14_preset_case"})
     n_valid = 420 if tier == "quick" else 9000
     n_omit = 160 if tier == "quick" else 3000
     n_bad = 260 if tier == "quick" else 5000
     n_stale = 60 if tier == "quick" else 1000
     n_preset = 150 if tier == "quick" else 3000
+    n_shared = 80 if tier == "quick" else 1500
 
     # ---- valid requests with explicit in-range map choices ----
     for _ in range(n_valid):
@@ -345,9 +450,11 @@ def generate(rng, tier, outdir):
         map_ids = [int(rng.integers(0, n)) for n in nmaps]
         inplace = bool(rng.integers(0, 2))
         nph = sum(1 for it in desc["items"] if is_ph(it))
+        form = "tuple" if rng.integers(0, 5) == 0 else "list"
         emit(w, "valid", desc, ids, map_ids, inplace,
-             dict(nq=desc["nq"], placeholders=nph, groups=len(ids), preset=pm, inplace=inplace,
-                  n2q=sum(1 for it in desc["items"] if it[0] == "qpd2"), length=len(desc["items"])))
+             dict(nq=desc["nq"], placeholders=nph, groups=len(ids), preset=pm, inplace=inplace, form=form,
+                  layout="registers" if desc.get("layout") else "single",
+                  n2q=sum(1 for it in desc["items"] if it[0] == "qpd2"), length=len(desc["items"])), form=form)
 
     # ---- map_ids omitted ----
     for it_no in range(n_omit):
@@ -368,7 +475,8 @@ def generate(rng, tier, outdir):
         phs = [i for i, it in enumerate(desc["items"]) if is_ph(it)]
         others = [i for i in range(n) if i not in phs]
         mode = ["len3", "empty_group", "non_placeholder", "diff_bases", "count_less", "count_more", "maps_len",
-                "map_range", "map_negative", "index_range", "qpd2_in_pair", "repeated_index"][int(rng.integers(0, 12))]
+                "map_range", "map_negative", "map_none", "index_range", "qpd2_in_pair", "repeated_index",
+                "repeated_across"][int(rng.integers(0, 14))]
         ids = [list(g) for g in ids]
         if mode == "len3":
             if len(phs) < 3:
@@ -459,8 +567,20 @@ def generate(rng, tier, outdir):
             ids[a] = [ids[a][0], ids[a][0]]   # [[p, p]] and the other placeholder left out: the count still matches
             del ids[b]
             del map_ids[b]
-        inplace = bool(rng.integers(0, 2))
-        use_maps = map_ids if (mode in ("maps_len", "map_range", "map_negative") or rng.integers(0, 5)) else None
+        elif mode == "repeated_across":
+            singles = [k for k, g in enumerate(ids) if len(g) == 1]
+            if len(singles) < 2:
+                continue
+            a, b = singles[0], singles[1]
+            same_kind = desc["items"][ids[a][0]][0] == desc["items"][ids[b][0]][0]
+            ids[b] = [ids[a][0]]              # [[p], [p]]: p twice, the other placeholder never; the count still matches
+            map_ids[b] = map_ids[a] if same_kind or rng.integers(0, 2) else 0
+        elif mode == "map_none":
+            k = int(rng.integers(1, len(ids))) if len(ids) > 1 and rng.integers(0, 4) else int(rng.integers(0, len(ids)))
+            map_ids[k] = None
+        # refusals must leave the argument unchanged: exercise the in-place path more often for the map-id modes
+        inplace = bool(rng.integers(0, 4) > 0) if mode in ("map_range", "map_negative", "map_none") else bool(rng.integers(0, 2))
+        use_maps = map_ids if (mode in ("maps_len", "map_range", "map_negative", "map_none") or rng.integers(0, 5)) else None
         emit(w, "malformed", desc, ids, use_maps, inplace, dict(mode=mode, inplace=inplace))
         made += 1
 
@@ -482,7 +602,9 @@ def generate(rng, tier, outdir):
             free = [m for m in range(n) if m not in taken] or list(range(n))
             map_ids.append(int(free[int(rng.integers(0, len(free)))]))
         inplace = bool(rng.integers(0, 2))
-        emit(w, "definition_read_before", desc, ids, map_ids, inplace, dict(preset=pm, inplace=inplace, n_read=len(pre)))
+        omit = (pm == "all" and rng.integers(0, 2) == 0)
+        emit(w, "definition_read_before", desc, ids, None if omit else map_ids, inplace,
+             dict(preset=pm, inplace=inplace, n_read=len(pre), map_ids="omitted" if omit else "given"))
         made += 1
 
     # ---- the choice is made on the gate itself: basis_id through the setter / the constructors ----
@@ -503,7 +625,7 @@ def generate(rng, tier, outdir):
         path = ["setter", "ctor"][int(rng.integers(0, 2))]
         canon, impl = execute_preset(desc, ids, target, path, value)
         case = dict(kind="preset", stream="preset", desc=desc, ids=ids, target=target, path=path, value=value, canon=canon, impl=impl)
-        w.add("preset", "chk_preset", coq_preset_case(canon, value, impl), case, nontrivial=True)
+        w.add("preset", "chk_preset", coq_preset_case(canon, value, impl, ids), case, nontrivial=True)
         w.count("preset.class", cls)
         w.count("preset.path", path + ":" + desc["items"][target][0])
         w.count("preset.outcome", impl["status"])
@@ -511,15 +633,60 @@ def generate(rng, tier, outdir):
             w.count("preset.then_decompose", impl["after"]["status"])
         made += 1
 
+    # ---- ONE gate object at two positions (QuantumCircuit.append does not copy the instruction) ----
+    made = 0
+    while made < n_shared:
+        desc, ids, nmaps, pm = gen_valid(rng, preset_mode=["none", "all"][made % 2], n_units=int(rng.integers(1, 4)))
+        phs = [i for i, it in enumerate(desc["items"]) if is_ph(it)]
+        src = phs[int(rng.integers(0, len(phs)))]
+        k = next(j for j, g in enumerate(ids) if src in g)
+        it = desc["items"][src]
+        if rng.integers(0, 2):
+            desc["items"].append(rand_ordinary(rng, desc["nq"], desc["nc"]))
+        dup = list(it)
+        if it[0] == "qpd2":
+            dup[4] = [int(x) for x in rng.permutation(desc["nq"])[:2]]
+        else:
+            dup[5] = [int(rng.integers(0, desc["nq"]))]
+        desc["items"].append(dup)
+        j = len(desc["items"]) - 1
+        desc["shared"] = {str(j): src}
+        pos = int(rng.integers(0, len(ids) + 1))
+        ids = [list(g) for g in ids]
+        ids.insert(pos, [j])
+        nmaps = list(nmaps)
+        nmaps.insert(pos, nmaps[k])
+        map_ids = [int(rng.integers(0, n)) for n in nmaps]
+        kk = k + 1 if pos <= k else k
+        if nmaps[pos] > 1 and rng.integers(0, 4):      # differing map ids for the two positions of the shared object
+            while map_ids[pos] == map_ids[kk]:
+                map_ids[pos] = int(rng.integers(0, nmaps[pos]))
+        inplace = bool(rng.integers(0, 3) > 0)
+        emit(w, "shared_instance", desc, ids, map_ids, inplace,
+             dict(inplace=inplace, kind=it[0], differing=(map_ids[pos] != map_ids[kk])))
+        made += 1
+
+    # ---- the property-level oracle must accept what the implementation does on the unchanged tree ----
+    for gname, g in list(w.groups.items()):
+        for _, jc in g["cases"]:
+            try:
+                v = judge(jc)
+                ok = not v["violates"]
+            except Exception:  # noqa: BLE001
+                ok = False
+            w.contract("judge_accepts_clean_case", ok)
+
     return w.finish(
         rule="random circuits on 1..4 qubits, 0..2 clbits, 0..6 ordinary instructions (1q/2q gates, measure, reset, barrier, "
         "pre-existing qpd_measure) interleaved with 0..4 decompositions (TwoQubitQPDGate / two SingleQubitQPDGate halves sharing "
         "a basis, possibly through equal-but-distinct QPDBasis objects / standalone SingleQubitQPDGate); bases from "
         "QPDBasis.from_instruction(cx, cz, swap, Move, rzz(1/2), rzz(3/4)) and five hand-made bases with empty op lists; group order "
         "and id order inside pairs shuffled; basis_id preset none/all/mixed; inplace False/True. Streams: valid (random in-range "
-        "map_ids), omitted (map_ids=None), malformed (12 mutation classes incl. negative map ids), definition_read_before (Instruction._definition cache "
+        "map_ids), omitted (map_ids=None), malformed (14 mutation classes incl. negative / None map ids, repeated indices, 2q gate in a pair), definition_read_before (Instruction._definition cache "
         "filled before the call), preset (an in-range / too large / negative basis_id put on one placeholder through the setter or a "
-        "constructor, then decompose with map_ids omitted). distinct = distinct Coq case literal; non-trivial = successful call with >=1 placeholder, or a "
+        "constructor, then decompose with map_ids omitted), shared_instance (one gate object at two positions; inplace=True cases are "
+        "the known finding F17 and go to a quiet group while KNOWN_FINDINGS.json lists it). One third of the circuits use several "
+        "quantum/classical registers and loose clbits; one fifth of the valid calls pass tuples. distinct = distinct Coq case literal; non-trivial = successful call with >=1 placeholder, or a "
         "non-Ok outcome in the non-valid streams"
     )
 
@@ -613,8 +780,11 @@ def judge(case):
     ph = [d["op"][0] in ("qpd1", "qpd2") for d in cin]
     if not inplace and not impl.get("untouched", True):
         return dict(violates=True, detail="inplace=False but the input circuit was modified: " + str(impl.get("input_after")))
+    if inplace and st == "refused" and not impl.get("arg_unchanged", True):
+        return dict(violates=True, detail="the call was refused, but not cleanly: the argument circuit was modified before the "
+                                          "ValueError: " + str(impl.get("input_after")))
     if any(not (0 <= p < n) for g in ids for p in g):
-        return dict(violates=False, detail="an index is outside the circuit; property silent (outcome %s)" % st)
+        return dict(violates=False, detail="an index is outside the circuit (or negative); outside the property's quantifier (outcome %s)" % st)
     reasons = []
     if any(len(g) not in (1, 2) for g in ids):
         reasons.append("group length not 1 or 2")
@@ -624,8 +794,15 @@ def judge(case):
         reasons.append("differing bases in one group")
     if sum(len(g) for g in ids) != sum(ph):
         reasons.append("count mismatch")
+    flat = [p for g in ids for p in g]
+    if len(set(flat)) != len(flat):
+        reasons.append("an instruction index is mentioned twice")
+    if any(ph[p] and cin[p]["op"][0] == "qpd2" and len(g) != 1 for g in ids for p in g):
+        reasons.append("a two-qubit placeholder shares a group with another index")
     if maps is not None and len(maps) != len(ids):
         reasons.append("len(map_ids) mismatch")
+    if maps is not None and any(m is None for m in maps):
+        reasons.append("None entry in map_ids")
     if not reasons and maps is not None:
         for k, g in enumerate(ids):
             for p in g:
@@ -633,17 +810,21 @@ def judge(case):
                     reasons.append("map id out of range")
     if reasons:
         return dict(violates=(st != "refused"), detail=f"request must be refused ({'; '.join(sorted(set(reasons)))}); outcome {st}: {impl.get('detail')}")
-    flat = [p for g in ids for p in g]
-    if len(set(flat)) != len(flat):
-        return dict(violates=False, detail="an index is repeated: not a grouping; property silent (outcome %s)" % st)
-    if any(cin[p]["op"][0] == "qpd2" and len(g) != 1 for g in ids for p in g):
-        return dict(violates=False, detail="a two-qubit placeholder inside a two-element group; property silent (outcome %s)" % st)
     # a proper grouping of all placeholders
     chosen = {}
-    for k, g in enumerate(ids):
-        for p in g:
-            op = cin[p]["op"]
-            chosen[p] = maps[k] if maps is not None else (op[2] if op[0] == "qpd2" else op[3])
+    known = ""
+    assign_ids = ids
+    if case.get("known_class") == "F17" and inplace:
+        # known finding F17: positions holding ONE gate object all receive the map id assigned last
+        assign_ids = alias_closed_ids(case["desc"], ids)
+        known = " (known finding F17: current aliasing behaviour of a shared gate object under inplace=True)"
+    for p, d in enumerate(cin):
+        if ph[p]:
+            chosen[p] = d["op"][2] if d["op"][0] == "qpd2" else d["op"][3]
+    if maps is not None:
+        for k, g in enumerate(assign_ids):
+            for p in g:
+                chosen[p] = maps[k]
     if any(v is None for v in chosen.values()):
         # map choice omitted and some placeholder has no basis_id: must decompose (randomly) or be refused cleanly
         if st == "crashed":
@@ -658,15 +839,17 @@ def judge(case):
     if got != want or impl["regsize"] != size:
         first = next((i for i, (a, b) in enumerate(zip(got, want)) if a != b), min(len(got), len(want)))
         return dict(violates=True, detail=f"direct splice differs at output position {first}: want {want[first:first + 3]} "
-                                          f"got {got[first:first + 3]}; register size want {size} got {impl['regsize']}")
-    return dict(violates=False, detail="equals the direct splice")
+                                          f"got {got[first:first + 3]}; register size want {size} got {impl['regsize']}" + known)
+    if not impl.get("reg_ok", True):
+        return dict(violates=True, detail="the new register is not the final register of the result / its bits are not the final clbits")
+    return dict(violates=False, detail="equals the direct splice" + known)
 
 
 def rerun(case):
     if case.get("kind") == "preset":
         case["canon"], case["impl"] = execute_preset(case["desc"], case["ids"], case["target"], case["path"], case["value"])
         return case
-    canon, impl, _ = execute(case["desc"], case["ids"], case["map_ids"], case["inplace"])
+    canon, impl, _ = execute(case["desc"], case["ids"], case["map_ids"], case["inplace"], case.get("form", "list"))
     case["canon"] = canon
     case["impl"] = impl
     return case
@@ -704,4 +887,11 @@ def witness(name):
         fails = bool(v1["violates"] or v2["violates"] or v3["violates"])
         return dict(fails=fails, detail=" | ".join(f"({t}) {c['impl']['status']}: {v['detail']}" for t, c, v in
                                                    (("a", c1, v1), ("b", c2, v2), ("c", c3, v3))))
+    if name == "F17":
+        # ONE TwoQubitQPDGate object appended twice, inplace=True: both positions are decomposed with the map id assigned last
+        desc = dict(nq=2, nc=0, bases=[["inst", "cx", []]],
+                    items=[["qpd2", 0, None, None, [0, 1]], ["g", "x", [], [0]], ["qpd2", 0, None, None, [0, 1]]],
+                    predef=[], shared={"2": 0})
+        case, v = _witness_case(desc, [[0], [2]], [0, 3], inplace=True)   # judged WITHOUT the known-class tag
+        return dict(fails=bool(v["violates"]), detail=v["detail"], impl=case["impl"]["status"])
     return dict(fails=None, detail=f"unknown witness {name}")
